@@ -52,6 +52,7 @@ SPEC_VARIANTS = [
     ("MC_EvalOpTiny", "MC_EvalOpTiny_NoAction", "evaluator on games accepted without the action in the recall rule", "OInvDeclarative"),
     ("ParWorkers", "MC_ParWorkers_NoMutex", "average-strategy update without the mutex", "NoLostStrategyUpdate"),
     ("ParWorkers", "MC_ParWorkers_Scratch", "utilities parked in a per-infoset scratch cell", "ParEqualsSeq"),
+    ("ParWorkers", "MC_ParWorkers_TryLock", "shared accumulator taken with try_lock().unwrap()", "NoPanic"),
 ]
 
 
